@@ -23,6 +23,7 @@ import TrompModel.Tie.IsCompleted
 import TrompModel.Tie.HandleRetire
 import TrompModel.Tie.HandleDetach
 import TrompModel.Tie.SeqDtor
+import TrompModel.Tie.Cost
 import TrompModel.Props.C14_HandlePending
 import TrompModel.Props.C14_HandleWorld
 
@@ -270,5 +271,42 @@ theorem seq_dtor_on_machine (n : Nat) (ops : List Tromp.Op) (hb : ∀ op ∈ ops
   rw [w1, w2, seq_dtor_eq, hp]
   simp only [List.isEmpty_iff, List.map_eq_nil_iff]
   rfl
+
+/-! ### `sequence_type::cost` evaluated on the machine's pending ring -/
+
+theorem seqCostGo_map {α β : Type} [DecidableEq α] [DecidableEq β] (f : α → β) (hf : Function.Injective f)
+    (sat : α → Bool) (satb : β → Bool) (hs : ∀ a, satb (f a) = sat a) (h : α) (k : Nat) (l : List α) :
+    seqCostGo satb (f h) k (l.map f) = seqCostGo sat h k l := by
+  induction l generalizing k with
+  | nil => rfl
+  | cons x xs ih =>
+    simp only [List.map_cons, seqCostGo, hs]
+    by_cases e : x = h
+    · simp [e]
+    · have : f x ≠ f h := fun e' => e (hf e')
+      simp only [e, this, if_false]
+      split
+      · exact ih _
+      · rfl
+
+/-- **`cost()` on the real layout**: at any point of any history, the translated `sequence_type::cost` of the handle of owner `o`
+    run over what an iterator visits on the machine's pending ring of sequence `s` is the model's cost of `o` in the World's
+    pending list of `s` (`~0U` for "not callable") — the number `find` compares when several expectations match (C02, C05). -/
+theorem cost_on_machine (n : Nat) (ops : List Tromp.Op) (hb : ∀ op ∈ ops, ∀ s ∈ registers op, s < n) (s : Nat) (hs : s < n) (o : Owner)
+    (hlen : ((World.run {} ops).1.pendingOf s).length < topU) :
+    let st := (machineRun n ({}, hInit n) ops).2
+    let w := (World.run {} ops).1
+    Cxx.cost (fun a => match ownerOfHandle a with | some o' => w.ownerSat o' | none => true) (SAddr.handle o s)
+        (toList st.hp (SAddr.pending s) ((st.a.lists (SAddr.pending s)).length + 1)) =
+      (seqCost w.ownerSat o (w.pendingOf s)).toU := by
+  intro st w
+  obtain ⟨I, _⟩ := machine_follows_world n ops hb
+  have hp := machine_pending_is_world n ops hb s hs
+  have r1 := I.rep.rings (SAddr.pending s) (pending_head I (by omega))
+  have w1 := toList_ring r1 0
+  simp only [Nat.add_zero] at w1
+  rw [w1, hp, cost_eq _ _ _ (by simpa using hlen)]
+  unfold seqCost
+  rw [seqCostGo_map (fun o' => SAddr.handle o' s) (handle_injective s) w.ownerSat _ (fun a => rfl)]
 
 end Tromp.Tie
